@@ -50,7 +50,7 @@ def _worker(args):
                     o["cex"]["replay_status"] = "failed"
                     o["cex"]["replay_failed"] = [o["name"]]
             out["symbolic"] = {"harness": h.ident, "kind": "data", "paths": 1, "obligations": obs, "unsupported": [],
-                               "error": getattr(v, "tb", None) if st == "error" else None, "notes": list(h.assumptions),
+                               "error": (getattr(v, "tb", None) or getattr(v, "error", None) or st) if st not in ("ok", "failed") else None, "notes": list(h.assumptions),
                                "interpreted": {}, "seconds": time.time() - t0, "functions": h.functions}
             out["concrete"] = None
             return out
